@@ -419,12 +419,20 @@ mod header_serde {
     where
         S: Serializer,
     {
-        serializer.collect_map(headers.iter().map(|(name, values)| {
-            (
-                name.as_str(),
-                values.iter().map(|v| v.as_str()).collect::<Vec<_>>(),
-            )
-        }))
+        // `Headers` is a hash map with a random seed per instance: write the entries ordered
+        // by name, so that equal responses serialize to the same bytes.
+        let mut entries: Vec<(&str, Vec<&str>)> = headers
+            .iter()
+            .map(|(name, values)| {
+                (
+                    name.as_str(),
+                    values.iter().map(|v| v.as_str()).collect::<Vec<_>>(),
+                )
+            })
+            .collect();
+        entries.sort_by(|lhs, rhs| lhs.0.cmp(rhs.0));
+
+        serializer.collect_map(entries)
     }
 
     pub fn deserialize<'de, D>(deserializer: D) -> Result<Headers, D::Error>
